@@ -44,13 +44,15 @@ Definition tw_tail_case (meth tail : string) (X : list xv) (y t : xv) : xv :=
 Definition tw_interval_case (meth : string) (X : list xv) (y lo hi : xv) : xv :=
   crps_case meth (map (fun x => gen_chain_interval x lo hi) X) (gen_chain_interval y lo hi).
 
-(* brier_score_for_ensemble, one (case, threshold) cell, operator.ge *)
+(* brier_score_for_ensemble, one (case, threshold) cell, operator.ge.  Which members count in m, the score and the fair
+   correction are the regenerated expressions (site C06.brier); that i and m are sums over the member dimension, that the
+   event is taken with the caller's operator, and binary_discretise (NaN observation stays NaN) are the hand model *)
 Definition brier_ens_cell (fair : bool) (X : list xv) (y t : xv) : xv :=
   let i := xsum (map (fun x => b2x (xge x t)) X) in
-  let m := xsum (map (fun x => b2x (xnotnull x)) X) in
+  let m := xsum (map (fun x => b2x (gen_brier_member_valid x)) X) in
   let bo := xwhere (xnotnull y) (b2x (xge y t)) in
-  let r := xpow2 (xsub (xdiv i m) bo) in
-  if fair then xsub r (xfillna (xdiv (xmul i (xsub m i)) (xmul (xpow2 m) (xsub m X1))) X0) else r.
+  let r := gen_brier_score i m bo in
+  if fair then xsub r (gen_brier_fair_fill (gen_brier_fair_corr i m)) else r.
 
 (* ------------------------------------------------------------------------------------------------ *)
 (* proved specifications (coq/proofs/C06*.v): the textbook kernel forms over exact rationals           *)
